@@ -280,6 +280,20 @@ func nativeReplay(specPath, tier string, v sx.Violation) (bool, string, error) {
 	if tier == "thorough" {
 		ts = mergeTier(h.Quick, h.Thorough)
 	}
+	if ov := os.Getenv("GOSX_PARAMS"); ov != "" {
+		// experiment overrides given with -param apply to the replay as well
+		np := map[string]int{}
+		for k, v := range ts.Params {
+			np[k] = v
+		}
+		for _, kv := range strings.Split(ov, ",") {
+			if i := strings.IndexByte(kv, '='); i > 0 {
+				n, _ := strconv.Atoi(kv[i+1:])
+				np[kv[:i]] = n
+			}
+		}
+		ts.Params = np
+	}
 	tmp, err := os.MkdirTemp("", "gosx-replay-")
 	if err != nil {
 		return false, "", err
